@@ -195,7 +195,7 @@ MUTANTS = [
     ("fmt-enum-multiline-drops-last-comma-newline", "varlink_parser/src/format.rs",
      r'(impl Format for VEnum<\'_> \{.*?fn get_multiline.*?)f \+= &format!\(",\\n\{:indent\$\}\{\}", "", elt, indent = indent \+ 2\);', r'\1f += &format!(", {}", elt);', None),
     ("fmt-struct-fit-test-off-by-two", "varlink_parser/src/format.rs",
-     r"(impl Format for VStruct<'_> \{.*?fn get_multiline.*?)if line\.len\(\) \+ indent \+ 2 < max \{", r"\1if line.len() + indent < max {", None),
+     r"(impl Format for VStruct<'_> \{.*?fn get_multiline.*?)if line\.len\(\) \+ indent \+ 2 < max \{", r"\1if line.len() + indent < max {", {"C10"}),   # the plain layout alone changes: colored and plain no longer agree
     ("fmt-option-marker-dropped-multiline", "varlink_parser/src/format.rs",
      r'(fn get_multiline\(&self, indent: usize, max: usize\) -> String \{\s*match \*self \{.*?)VTypeExt::Option\(ref v\) => format!\("\?\{\}", v\.get_multiline\(indent, max\)\),', r'\1VTypeExt::Option(ref v) => v.get_multiline(indent, max),', {"C10"}),
     ("fmt-colored-typedef-doc-dropped", "varlink_parser/src/format.rs",
